@@ -7,9 +7,16 @@ ITERABLE_KINDS = ('list', 'shuffled', 'dups', 'tuple', 'generator', 'pyset',
                   'dict', 'range', 'other-impl', 'keys-view', 'values-view')
 
 
-def make_container(fam, kind, impl, keys, values, rng, sizes=None):
+def make_container(fam, kind, impl, keys, values, rng, sizes=None,
+                   pool=None):
     """A container of `kind` holding `keys` (mapping kinds: random values),
-    built through the public API so that trees have real shapes."""
+    built through the public API so that trees have real shapes.
+
+    With a `pool` of further keys, half of the trees are first grown with
+    the pool's keys as well and then thinned down to `keys` by deletions
+    (ascending, descending or random order): roots with a single interior
+    child, emptied and unlinked leaves, separators that are only lower
+    bounds - the shapes only a history with deletions reaches."""
     cls = fam.cls(kind, impl)
     if sizes and kind in ('BTree', 'TreeSet'):
         harness.set_node_sizes(cls, *sizes)
@@ -17,7 +24,22 @@ def make_container(fam, kind, impl, keys, values, rng, sizes=None):
     ks = list(keys)
     rng.shuffle(ks)
     vals = {}
-    if kind in ('Bucket', 'BTree'):
+    is_map = kind in ('Bucket', 'BTree')
+    extras = []
+    if pool and kind in ('BTree', 'TreeSet') and rng.random() < .5:
+        have = set(ks)
+        extras = list(dict.fromkeys(k for k in pool if k not in have))
+        if extras:
+            allk = ks + extras
+            rng.shuffle(allk)
+            for k in allk:
+                if k in have:
+                    continue
+                if is_map:
+                    c[k] = rng.choice(values)
+                else:
+                    c.add(k)
+    if is_map:
         for k in ks:
             v = rng.choice(values)
             c[k] = v
@@ -25,6 +47,19 @@ def make_container(fam, kind, impl, keys, values, rng, sizes=None):
     else:
         for k in ks:
             c.add(k)
+    if extras:
+        order = rng.choice(['asc', 'desc', 'random'])
+        if order == 'random':
+            rng.shuffle(extras)
+        else:
+            extras = sort_keys(extras)
+            if order == 'desc':
+                extras.reverse()
+        for k in extras:
+            if is_map:
+                del c[k]
+            else:
+                c.remove(k)
     return c, vals
 
 
